@@ -63,6 +63,7 @@ class Sim:
         self.main_starts = 0
         self.pools = []
         self.stalled = set()      # baton threads held back while others run
+        self.script = None        # DirectedSchedule instead of random choices
 
     # -- bookkeeping -------------------------------------------------------
     def ev(self, *a):
@@ -104,6 +105,9 @@ class Sim:
             return
         me = self.current
         self.pos[me] = where
+        if self.script is not None:
+            self.script.step(self, me, where, clock_ok)
+            return
         if clock_ok and self.timers and not self.main_parked:
             pc = self.p_clock if me == MAIN else self.p_clock / 4.0
             if self.dec.flip("clock?", pc):
@@ -245,6 +249,60 @@ class Sim:
                 break
         self.now_ms = max(self.now_ms, end)
         return fired
+
+
+class DirectedSchedule:
+    """One pre-emption of the timer callback, placed exactly.
+
+    The caller runs until its i-th yield point inside a progress method; there
+    one timer period passes, the timer fires and the callback runs until its
+    j-th yield point; then the caller runs to the end of the API call (and, in
+    variant "update", only until it has left the progress method it is in and
+    entered the next one); finally the callback resumes.  (i, j) enumerate the
+    caller position x callback pre-emption point grid of the property text.
+    """
+
+    def __init__(self, i, j, variant="end"):
+        self.i, self.j, self.variant = i, j, variant
+        self.state = 0
+        self.main_count = 0
+        self.cb_count = 0
+        self.cb = None
+        self.reached = [False, False]
+        self.resume_after = None
+
+    def step(self, sim, me, where, clock_ok):
+        if self.state == 0 and me == MAIN and clock_ok:
+            if self.main_count == self.i and sim.timers:
+                self.reached[0] = True
+                due = min(t.due_ms for t in sim.timers)
+                sim.advance(max(0, due - sim.now_ms) + 1)
+                others = sim._candidates(me)
+                if others:
+                    self.cb = others[0]
+                    self.state = 1
+                    sim._switch_to(self.cb, where)
+                    return
+            self.main_count += 1
+        elif self.state == 1 and me == self.cb:
+            if self.cb_count == self.j:
+                self.reached[1] = True
+                self.state = 2
+                if self.variant == "update":
+                    self.resume_after = sim.func.get(MAIN)
+                sim._switch_to(MAIN, where)
+                return
+            self.cb_count += 1
+        elif self.state == 2 and me == MAIN and self.variant == "update" \
+                and clock_ok:
+            # let the callback continue once the caller has moved on to
+            # another progress method
+            fn = where.split(":")[0]
+            if self.resume_after is not None and fn not in (
+                    self.resume_after, "_print_status"):
+                self.state = 3
+                if self.cb in sim.runnable:
+                    sim._switch_to(self.cb, where)
 
 
 SIM = None  # the active simulation of this process (one per forked child)
